@@ -151,6 +151,9 @@ def run_replay(rep, bins, seq_file, workers, clients, label):
         replay_txt = cfg_line + json.dumps(v.get("sequence") or v.get("detail", {}).get("sequence_in_flight") or {}) + "\n"
         n += 1
         rep.violation(klass, desc, replay_txt, name="%s_%d.ndjson" % (label, n))
+    if n == 0 and summ.get("workers_released_late", 0) > 0:
+        raise vlib.ToolError("%d worker(s) released their connections only after the deadline: machine overloaded, inconclusive"
+                             % summ["workers_released_late"])
     return summ
 
 
@@ -164,6 +167,8 @@ def run_storm(rep, bins, wd, knobs, seed, conns, devs, label):
     for v in out:
         if v.get("kind") == "violation":
             rep.violation(v["class"], json.dumps(v.get("detail"))[:260], v, name="storm_%s_%s.json" % (label, v["class"]))
+    if summ[0].get("released_late") and not rep.violations:
+        raise vlib.ToolError("the storm worker released its connections only after the deadline: machine overloaded, inconclusive")
     if summ[0].get("setup_errors", 0) > max(2, conns // 10):
         raise vlib.ToolError("too many storm connections could not be set up: %s" % summ[0])
     validate_trace(rep, wd, trace, knobs, devs, label)
@@ -317,7 +322,7 @@ def run(tier, replay=None):
                       want_replay=True, replay_sink=walks.append)
         if gw["violated"]:
             raise vlib.ToolError("walk generator reported %s" % gw["violated"])
-    seqs, classes, pool = build_sequences(cover, walks, 10 ** 9 if thorough else 7000, rnd)
+    seqs, classes, pool = build_sequences(cover, walks, 130000 if thorough else 7000, rnd)
     seq_file = os.path.join(wd, "sequences.ndjson")
     write_sequences(seq_file, REPLAY, seqs)
     summ = run_replay(rep, bins, seq_file, 8, 2, "seq")
@@ -347,7 +352,7 @@ def run(tier, replay=None):
                    want_replay=True, replay_sink=wwalks.append)
     if gww["violated"]:
         raise vlib.ToolError("flow-control walk generator reported %s" % gww["violated"])
-    wseqs, wclasses, wpool = build_sequences(wcover, wwalks, 10 ** 9 if thorough else 3000, rnd)
+    wseqs, wclasses, wpool = build_sequences(wcover, wwalks, 50000 if thorough else 3000, rnd)
     wseq_file = os.path.join(wd, "sequences_win.ndjson")
     write_sequences(wseq_file, WIN_REPLAY, wseqs)
     wsumm = run_replay(rep, bins, wseq_file, 8, 2, "win")
